@@ -134,6 +134,7 @@ def units_coq(us):
 class Pco(Stream):
     name, sub = "pco", "pco"
     requires = ["Convert", "Convert3gpp"]
+    case_type = "list pcu * list N * option (list pcu) * bool"
     model_check = "(fun c : list pcu * list N * option (list pcu) * bool => pco_check (fst c))"
     spec_check = ("(fun c : list pcu * list N * option (list pcu) * bool => let '(us, ob, ou, wf) := c in if wf then "
                   "match pco_decode ob, ou with Some l, Some l' => "
@@ -170,6 +171,7 @@ class Pco(Stream):
 class PcoDec(Stream):
     name, sub = "pcodec", "pcodec"
     requires = ["Convert"]
+    case_type = "list N * option (list pcu)"
     model_check = "pcodec_check"
     shard = 500
 
